@@ -19,3 +19,12 @@ from collections import Counter
 c=Counter((m.split('::')[0], res.get(m,'not-run')) for m in missing)
 for k,v in sorted(c.items()): print('  ',k,v)
 for m in missing[:40]: print('   -',m,res.get(m,'not-run'))
+
+# Many stable subtests carry randomly generated names (sizes, hashes): reduce what is missing to
+# top-level tests and report their status and any stable subtest that FAILED now.
+tops={}
+for m in missing:
+    pkg,t=m.split('::',1); tops.setdefault(pkg+'::'+t.split('/')[0],[]).append(m)
+print('by top-level test:')
+for top,ms in sorted(tops.items()):
+    print('  ',top,'top-level:',res.get(top,'not-run'),'stable subtests missing:',len(ms),'of which failed now:',len([m for m in ms if res.get(m)=='fail']))
